@@ -146,7 +146,8 @@ func registerIntrinsics(e *Engine) {
 	model("strconv.FormatUint", "FormatUint")
 	for _, n := range []string{"strings.Contains", "strings.Repeat", "strings.ToLower", "strings.ToUpper", "strings.TrimSpace",
 		"strings.Split", "strings.Fields", "strings.TrimPrefix", "strings.TrimSuffix", "strings.TrimRight", "strings.Trim",
-		"strings.IndexByte", "strings.LastIndex", "strings.EqualFold", "strings.Compare",
+		"strings.IndexByte", "strings.LastIndex", "strings.EqualFold", "strings.Compare", "strings.IndexAny", "strings.ContainsRune", "strings.IndexRune",
+		"strings.SplitN", "strings.TrimFunc", "strings.LastIndexByte", "strings.Cut",
 		"strconv.Itoa", "strconv.Atoi", "strconv.FormatInt", "strconv.ParseFloat", "strconv.Quote", "strconv.ParseInt"} {
 		name := n
 		reg(name, func(ex *Exec, fn *ssa.Function, a []Value) Value {
@@ -158,7 +159,8 @@ func registerIntrinsics(e *Engine) {
 			if r, ok := nativeCall(name, a); ok {
 				return r
 			}
-			panic(ex.unsupported(name + " with symbolic argument"))
+			// symbolic argument: interpret the library's own source (its leaf routines are modelled below)
+			return ex.invoke(fn, a, nil, nil)
 		})
 	}
 	reg("bytes.IndexByte", func(ex *Exec, fn *ssa.Function, a []Value) Value {
@@ -169,6 +171,104 @@ func registerIntrinsics(e *Engine) {
 			}
 		}
 		return int64(-1)
+	})
+	// ---- internal/bytealg: the assembly leaves of strings/bytes, over concrete-or-symbolic bytes ----
+	byteSlice := func(ex *Exec, v Value) []Value {
+		switch x := v.(type) {
+		case Slice:
+			return x
+		default:
+			return ex.strBytes(ex.forceStr(x))
+		}
+	}
+	indexByte := func(ex *Exec, bs []Value, c Value) Value {
+		for i, b := range bs {
+			if ex.branch(ex.byteEq(b, c)) {
+				return int64(i)
+			}
+		}
+		return int64(-1)
+	}
+	reg("internal/bytealg.IndexByteString", func(ex *Exec, fn *ssa.Function, a []Value) Value {
+		return indexByte(ex, byteSlice(ex, a[0]), a[1])
+	})
+	reg("internal/bytealg.IndexByte", func(ex *Exec, fn *ssa.Function, a []Value) Value {
+		return indexByte(ex, byteSlice(ex, a[0]), a[1])
+	})
+	countByte := func(ex *Exec, bs []Value, c Value) Value {
+		n := 0
+		for _, b := range bs {
+			if ex.branch(ex.byteEq(b, c)) {
+				n++
+			}
+		}
+		return int64(n)
+	}
+	reg("internal/bytealg.CountString", func(ex *Exec, fn *ssa.Function, a []Value) Value {
+		return countByte(ex, byteSlice(ex, a[0]), a[1])
+	})
+	reg("internal/bytealg.Count", func(ex *Exec, fn *ssa.Function, a []Value) Value {
+		return countByte(ex, byteSlice(ex, a[0]), a[1])
+	})
+	indexSub := func(ex *Exec, hay, needle []Value) Value {
+		for i := 0; i+len(needle) <= len(hay); i++ {
+			var eq Value = true
+			for j := range needle {
+				eq = ex.andVal(eq, ex.byteEq(hay[i+j], needle[j]))
+				if eq == false {
+					break
+				}
+			}
+			if ex.branch(eq) {
+				return int64(i)
+			}
+		}
+		return int64(-1)
+	}
+	reg("internal/bytealg.IndexString", func(ex *Exec, fn *ssa.Function, a []Value) Value {
+		return indexSub(ex, byteSlice(ex, a[0]), byteSlice(ex, a[1]))
+	})
+	reg("internal/bytealg.Index", func(ex *Exec, fn *ssa.Function, a []Value) Value {
+		return indexSub(ex, byteSlice(ex, a[0]), byteSlice(ex, a[1]))
+	})
+	reg("internal/bytealg.Equal", func(ex *Exec, fn *ssa.Function, a []Value) Value {
+		x, y := byteSlice(ex, a[0]), byteSlice(ex, a[1])
+		if len(x) != len(y) {
+			return false
+		}
+		var eq Value = true
+		for i := range x {
+			eq = ex.andVal(eq, ex.byteEq(x[i], y[i]))
+		}
+		return eq
+	})
+	reg("internal/bytealg.Compare", func(ex *Exec, fn *ssa.Function, a []Value) Value {
+		x, y := byteSlice(ex, a[0]), byteSlice(ex, a[1])
+		for i := 0; i < len(x) && i < len(y); i++ {
+			if ex.branch(ex.byteEq(x[i], y[i])) {
+				continue
+			}
+			lt := ex.binop(token.LSS, types.Typ[types.Uint8], x[i], y[i])
+			if ex.branch(lt) {
+				return int64(-1)
+			}
+			return int64(1)
+		}
+		switch {
+		case len(x) < len(y):
+			return int64(-1)
+		case len(x) > len(y):
+			return int64(1)
+		}
+		return int64(0)
+	})
+	reg("internal/bytealg.MakeNoZero", func(ex *Exec, fn *ssa.Function, a []Value) Value {
+		n := ex.concreteInt(a[0], types.Typ[types.Int])
+		s := make(Slice, n)
+		for i := range s {
+			s[i] = int64(0)
+		}
+		return s
 	})
 	// ---- fmt ---------------------------------------------------------------
 	reg("fmt.Sprintf", func(ex *Exec, fn *ssa.Function, a []Value) Value {
